@@ -224,6 +224,9 @@ FamDefects ==
   \cup { Plain("defect", <<Bad(F("", "title"), b), FS("", "a", <<F("", "name")>>)>>) : b \in {"unknown_dir", "misplaced_dir", "dir_unknown_arg", "dir_bad_arg", "dir_missing_arg"} }
   \cup { Plain("defect", <<FS("", "a", <<Bad(F("", "name"), b)>>), F("", "title")>>) : b \in {"unknown_dir", "misplaced_dir", "dir_unknown_arg", "dir_bad_arg", "dir_missing_arg"} }
   \cup { Plain("defect", <<Bad(Inl("", <<F("", "title")>>), b)>>) : b \in {"unknown_dir", "dir_unknown_arg"} }
+  \* ... on the meta field __typename (a leaf without arguments is a selection like any other)
+  \cup { Plain("defect", <<FS("", "a", <<Bad(F("", "__typename"), b), F("", "name")>>)>>) : b \in {"unknown_dir", "misplaced_dir", "dir_unknown_arg"} }
+  \cup { Plain("defect", <<Bad(F("t", "__typename"), b), F("", "title")>>) : b \in {"unknown_dir", "dir_unknown_arg"} }
   \* ... on a fragment definition (spread before it is defined, spread from another fragment, not spread at all)
   \cup { Case("defect", DocF(<<FS("", "a", <<Spr("F"), F("", "n")>>)>>, <<BadFrg("F", "A", <<F("", "name")>>, b)>>), "", NoVars, {}) :
            b \in {"unknown_dir", "misplaced_dir", "dir_unknown_arg", "dir_bad_arg", "dir_missing_arg"} }
